@@ -196,6 +196,39 @@ ensures (*final(self)).spec_inner().wf(),
     "size_hint": Fn(ret="r", spec="requires self.spec_inner().wf(),\nensures r.0 == self.spec_inner().seq().len(), r.1 == Some(r.0),"),
 })
 
+# ---- VecDeque<u8> -----------------------------------------------------------------------------
+U.text(r"""
+// std::collections::VecDeque: vstd gives the view (Seq) and len(); the two accessors the impl uses
+// are ASSUMED std contracts (trusted; the real std code is what the bounded Kani obligations
+// kx_vecdeque_* run): as_slices() splits the contents in order, drain(..n) removes the first n
+// elements (the Drain value is dropped at once by the impl: `self.drain(..cnt);`)
+pub assume_specification<T, A: std::alloc::Allocator> [std::collections::VecDeque::<T, A>::as_slices] (d: &std::collections::VecDeque<T, A>) -> (r: (&[T], &[T]))
+    ensures r.0@ + r.1@ == d@;
+#[verifier::external_type_specification]
+#[verifier::external_body]
+#[verifier::reject_recursive_types(T)]
+#[verifier::reject_recursive_types(A)]
+pub struct ExDrain<'a, T: 'a, A: std::alloc::Allocator>(std::collections::vec_deque::Drain<'a, T, A>);
+// `drain` is generic in the range type; the impl calls it with `..cnt` (RangeTo): `range_upto`
+// is the number of leading elements a range removes, fixed for RangeTo by the axiom below
+pub uninterp spec fn range_upto<R>(r: R) -> int;
+#[verifier::external_body]
+pub proof fn axiom_range_upto(r: core::ops::RangeTo<usize>)
+    ensures range_upto(r) == r.end as int
+{ }
+pub assume_specification<T, A: std::alloc::Allocator, R: core::ops::RangeBounds<usize>> [std::collections::VecDeque::<T, A>::drain::<R>] (d: &mut std::collections::VecDeque<T, A>, range: R) -> (r: std::collections::vec_deque::Drain<'_, T, A>)
+    requires 0 <= range_upto(range) <= old(d)@.len(),
+    ensures final(d)@ == old(d)@.skip(range_upto(range));
+""")
+U.block("src/buf/vec_deque.rs", "impl Buf for VecDeque<u8>", emit_header="impl Buf for std::collections::VecDeque<u8>", spec_items=r"""
+open spec fn seq(&self) -> Seq<u8> { self@ }
+open spec fn wf(&self) -> bool { true }
+""", fns={
+    "remaining": Fn(ret="r"),
+    "chunk": Fn(ret="r", hints=[("after", "let (s1, s2) = self.as_slices();", "proof { assert(s1@.len() == 0 ==> s1@ + s2@ =~= s2@); }")]),
+    "advance": Fn(hints=[("body_start", "", "proof { axiom_range_upto(..cnt); }")]),
+})
+
 # ---- io::Cursor<T> ----------------------------------------------------------------------------
 U.text(r"""
 // std::io::Cursor as an external type with assumed accessor contracts
